@@ -66,7 +66,8 @@ const (
 	FeatEventOrder     = 524288  // events due at the same instant are ordered by queue, not by creation
 	FeatMoreInputs     = 1048576 // C12: several closing events in a row; C06: large datagrams; C04: hello matrix; C10/C01 hub: user passes label spellings of SKIs
 	FeatChildFirst     = 2097152 // scheduler: at a go statement the new goroutine may run before the spawning one continues (in half of the runs, for 5% or 30% of the go statements)
-	FeatAll            = 4194303
+	FeatSpawnLast      = 4194304 // scheduler: a new goroutine may get the lowest priority (a quarter of the runs, 10% of the go statements)
+	FeatAll            = 8388607
 )
 
 // SetFeatForRig forces the dual-stack options of the next hub rig (workloads
@@ -383,6 +384,9 @@ func runInBubble(t *testing.T, sc *Scenario, spec RunSpec, res *RunResult) {
 	}
 	if spec.Feat&FeatChildFirst != 0 {
 		cfg.ChildFirst = []float64{0.3, 0.05, 0, 0}[(spec.Seed>>14)%4]
+	}
+	if spec.Feat&FeatSpawnLast != 0 && (spec.Seed>>17)%4 == 0 {
+		cfg.SpawnLast = 0.1
 	}
 	if spec.MaxSteps > 0 && spec.MaxSteps < cfg.MaxSteps {
 		// diagnosis only: look at the beginning of a long run
